@@ -13,6 +13,7 @@ from .common import pviolation, bump, pkey
 from .interp import name_of, Irregular
 
 VEC_KINDS = ('V', 'E', 'MVP', 'EP', 'EU')
+UNSUPPORTED = '~unsupported combination fails late'   # not a violation; blocks descendants
 
 
 def kind_sig(o):
@@ -206,7 +207,7 @@ def judge_values(got, pred, ctx, part):
         except Exception as e:
             if pred.get('may'):
                 bump(part, 'mayraise_raised_on_evaluate')
-                return None
+                return UNSUPPORTED
             return 'evaluate raises %s' % type(e).__name__
         part['evaluations'] += 1
         if len(have) != len(want):
@@ -274,7 +275,7 @@ def judge_state(st, ctx, part):
                 bump(part, 'kind_differs', '%s: spec %s code %s' % (sg, want_k, k))
             if ctx.judge_generic:
                 ident = judge_values(got, pred, ctx, part)
-            if ident is None and got is not None and ctx.observer is not None:
+            if ident is None and got is not None and ctx.observer is not None and not (pred.get('may') and apiexec.kind_of(got) != pred['kind']):
                 from . import apirun
                 ctx.varmap = apirun.varmap(objs)
                 ctx.parobjs = {c['i']: objs[n + 1] for n, c in enumerate(ctx.base_calls) if c['c'] == 'MkPar'}
@@ -287,7 +288,9 @@ def judge_state(st, ctx, part):
                 ctx.observer(got, pred, st['pred'][-1], call, sg, prog, ctx, part)
                 part.pop('_own', None)
                 part.pop('_prefixes', None)
-        if ident and ctx.report_kinds is not None and pred['kind'] not in ctx.report_kinds:
+        if ident == UNSUPPORTED:
+            ident_out = None
+        elif ident and ctx.report_kinds is not None and pred['kind'] not in ctx.report_kinds:
             bump(part, 'api_divergences_left_to_C11')
             ident_out = None
         else:
